@@ -22,6 +22,7 @@ func plans(quick bool) []netsim.CrashPlan {
 		{Name: "flush-4v-victim3-rotate", N: 4, Victim: 3, Flush: true, Heights: 4, Rotate: 1200},
 		{Name: "flush-1v-second-txs", N: 1, Victim: 0, Flush: true, Heights: 3, Second: true, WithTxs: true},
 		{Name: "flush-4v-victim1-valchange", N: 4, Victim: 1, Flush: true, Heights: 5, ValChange: true},
+		{Name: "flush-4v-victim2-manyrounds", N: 4, Victim: 2, Flush: true, Heights: 3, ManyRounds: true},
 	}
 	if quick {
 		return ps
